@@ -82,7 +82,9 @@ def _init_worker():
         gb = float(os.environ.get('VERIF_WORKER_MEM_GB', '10'))
         if gb > 0:
             lim = int(gb * (1 << 30))
-            resource.setrlimit(resource.RLIMIT_AS, (lim, lim))
+            soft, hard = resource.getrlimit(resource.RLIMIT_AS)
+            # (soft limit only: a child that needs a large address space - lean maps the Mathlib .olean files - may lift it again)
+            resource.setrlimit(resource.RLIMIT_AS, (lim if hard == resource.RLIM_INFINITY else min(lim, hard), hard))
     except Exception:
         pass
 
